@@ -6,6 +6,8 @@ cd "$(dirname "$0")/.." || exit 2
 seeds="$@"; [ -z "$seeds" ] && seeds=$(ls -d seeded/*/)
 for d in $seeds; do
   d=${d%/}
+  [ -e "${SEED_STOP_FILE:-/tmp/official/STOP}" ] && { echo "stop file present: stopping before $d"; break; }
+  [ -z "$FORCE" ] && [ -s "$d/detection.txt" ] && continue
   if [ -n "$OWN_ONLY" ]; then
     ids=$(python3 -c "import json; print(json.load(open('$d/meta.json'))['breaks_property'])") || continue
   else
